@@ -188,9 +188,9 @@ Qed.
 Definition creq (p : pin) (t : st) : Prop := cancel_req p = true -> canceled t = true.
 
 Inductive pstep (c : cfg) (g : graph) (p : pin) : conf -> conf -> Prop :=
-| ps_cancel t : cancel_req p = true -> Inv g t ->
+| ps_cancel t : cancel_req p = true -> Inv g t -> evs t = [] ->
     pstep c g p (t, [], [], []) (cancel_study_gen t, [], [], [])
-| ps_check t : dry c = false -> Inv g t ->
+| ps_check t : dry c = false -> Inv g t -> (forall e, In e (evs t) -> exists js, e = ECancel js) ->
     pstep c g p (t, [], [], []) (emit (ECheck (map (lastjob t) (inprog t))) t, [], [], [])
 | ps_report t cl ca done x o t' cl' ca' :
     dry c = false -> qcode p = QOK -> In (x, o) (reports p) -> ~ In x (map fst done) -> incl done (reports p) ->
@@ -366,7 +366,8 @@ Proof.
   set (s2 := if negb (dry c) then emit (ECheck (map (lastjob s1) (inprog s1))) s1 else s1).
   assert (R2 : psteps c g p (s0, [], [], []) (s2, [], [], []) /\ Inv g s2).
   { subst s2. destruct (dry c) eqn:D; cbn [negb]; [split; auto|].
-    split; [|apply Inv_emit; auto]. econstructor; [exact R1|]. apply ps_check; auto. }
+    split; [|apply Inv_emit; auto]. econstructor; [exact R1|]. apply ps_check; auto.
+    intros e He. subst s1 s0. destruct (cancel_req p); cbn in He; [destruct He as [<-|[]]; eauto|destruct He]. }
   destruct R2 as [R2 I2].
   assert (E2 : inprog s2 = inprog s) by (subst s2; destruct (negb (dry c)); exact E1).
   assert (Cr2 : creq p s2).
